@@ -586,18 +586,20 @@ impl Node {
             }
             "me" => {
                 let me = r!(c.get_me().await);
+                let mut g: Vec<(u32, u32, u32)> = me
+                    .consumer_groups
+                    .iter()
+                    .map(|g| (g.stream_id, g.topic_id, g.group_id))
+                    .collect();
+                g.sort();
                 format!(
-                    "ok user={} groups={}",
+                    "ok client={} groups={} user={}",
+                    me.client_id,
+                    g.iter()
+                        .map(|g| format!("{}/{}/{}", g.0, g.1, g.2))
+                        .collect::<Vec<_>>()
+                        .join(","),
                     me.user_id.map(|u| u.to_string()).unwrap_or("-".into()),
-                    {
-                        let mut g: Vec<String> = me
-                            .consumer_groups
-                            .iter()
-                            .map(|g| format!("{}/{}/{}", g.stream_id, g.topic_id, g.group_id))
-                            .collect();
-                        g.sort();
-                        g.join(",")
-                    }
                 )
             }
             "create-user" => {
@@ -933,15 +935,18 @@ impl Node {
                     g.members_count,
                     g.members
                         .iter()
-                        .map(|m| format!(
-                            "{}={}",
-                            m.id,
-                            m.partitions
-                                .iter()
-                                .map(|p| p.to_string())
-                                .collect::<Vec<_>>()
-                                .join("+")
-                        ))
+                        .map(|m| {
+                            let mut ps = m.partitions.clone();
+                            ps.sort();
+                            format!(
+                                "{}={}",
+                                m.id,
+                                ps.iter()
+                                    .map(|p| p.to_string())
+                                    .collect::<Vec<_>>()
+                                    .join("+")
+                            )
+                        })
                         .collect::<Vec<_>>()
                         .join(",")
                 ),
